@@ -31,9 +31,9 @@ theorem C02_body_reparse (t : Tree) :
 
 /-- parameters = the eligible leaves, in depth-first declaration order -/
 theorem C02_param_order (t : Tree) (hwf : WF t = true) :
-    (gen t).params.map Prod.fst = (specParams t).map (fun l => Transfer.camelS l.info.name) := by
+    (gen t).params.map Prod.fst = (specParams t).map (fun l => paramName l.info.name) := by
   simp only [WF, wfParamNames, Bool.and_eq_true, Bool.not_eq_true', decide_eq_true_eq] at hwf
-  exact paramNames_spec t hwf.1.2 hwf.1.1.2.1
+  exact paramNames_spec t hwf.1.2 hwf.1.1.2
 
 /-- a leaf is a parameter iff it is not hidden by Go's selector rule, not skipped, and marked when
     any field of the type is marked (definition of `eligible`, restated as the membership test) -/
@@ -62,7 +62,7 @@ theorem C02_value_at_path (t : Tree) (hwf : WF t = true) :
   intro l hl
   have hwf' := hwf
   simp only [WF, wfParamNames, Bool.and_eq_true, Bool.not_eq_true', decide_eq_true_eq] at hwf'
-  obtain ⟨⟨⟨hlev, hnd, _⟩, hts⟩, hsd⟩ := hwf'
+  obtain ⟨⟨⟨hlev, hnd⟩, hts⟩, hsd⟩ := hwf'
   have hw : WFLevels t := (wfLevels_iff t).mp hlev
   obtain ⟨π, hp, hat⟩ := leafAt_of_mem t true [] false 0 hw l hl
   simp only [List.nil_append] at hp
@@ -99,7 +99,7 @@ theorem C02_value_at_path (t : Tree) (hwf : WF t = true) :
           intro x hx
           simp only [specParams, List.mem_filter, eligible, Bool.and_eq_true, Bool.not_eq_true'] at hx
           simp [visibleLeaves, hx.1, hx.2.1.1]
-        have hinj : ∀ x ∈ specParams t, Transfer.camelS x.info.name = Transfer.camelS l.info.name → x = l :=
+        have hinj : ∀ x ∈ specParams t, paramName x.info.name = paramName l.info.name → x = l :=
           fun x hx e => eq_of_nodup_map hnd x (hsub x hx) l (hsub l hmem) e
         have hinjk : ∀ x ∈ specParams t, Leaf.key x = Leaf.key l → x = l := by
           intro x hx e
@@ -108,7 +108,7 @@ theorem C02_value_at_path (t : Tree) (hwf : WF t = true) :
             have := congrArg Prod.snd e; simpa [Leaf.key] using this
           rw [this]
         obtain ⟨i, hi⟩ := idx_isSome_of_mem (specParams t) l hmem
-        have h1 := idx_map_inj (g := fun x : Leaf => Transfer.camelS x.info.name) (specParams t) l hmem hinj
+        have h1 := idx_map_inj (g := fun x : Leaf => paramName x.info.name) (specParams t) l hmem hinj
         have h2 := idx_map_inj (g := Leaf.key) (specParams t) l hmem hinjk
         simp only [entryExpr, mkField, hnm, hsh, Bool.not_false, ↓reduceIte, Option.map_some, evalExpr, hel]
         rw [h1, h2, hi]
@@ -138,23 +138,15 @@ theorem C02_ptr_embeds_allocated (t : Tree) (hwf : WF t = true) (π : List Strin
   have hw : WFLevels t := (wfLevels_iff t).mp hwf.1.1.1
   rw [C02_body_reparse, hasSub_lit _ _ π true false 0 t hw, h]
 
-/-- for a generic struct whose constraints are identifiers the constructor carries the same type
-    parameters and constraints, group by group -/
-theorem C02_typeparams (gs : List TParams.Group) (h : ∀ g ∈ gs, g.isIdent = true) :
+/-- for a generic struct the constructor carries the same type parameters and constraints, group by
+    group (any constraint expression) -/
+theorem C02_typeparams (gs : List TParams.Group) :
     TParams.paramGroups gs = TParams.specGroups gs ∧ TParams.typeParamList gs = TParams.specList gs := by
   have hp : TParams.paramGroups gs = TParams.specGroups gs := by
     unfold TParams.paramGroups TParams.specGroups TParams.typeParams
-    rw [TParams.filter_all _ gs h, TParams.zip_map_self, List.map_map]
+    rw [TParams.zip_map_self, List.map_map]
     rfl
   exact ⟨hp, by unfold TParams.typeParamList TParams.specList; rw [hp]⟩
-
-/-- finding region F_tparamNonIdent (recorded in known_findings): a constraint that is not a plain
-    identifier (`cmp.Ordered`, `~int | ~string`, `fmt.Stringer`) is dropped and the remaining
-    constraints are paired with the wrong parameter groups -/
-theorem C02_F_tparamNonIdent_witness :
-    let gs : List TParams.Group := [⟨["K"], "cmp.Ordered", false⟩, ⟨["V"], "any", true⟩]
-    TParams.typeParamList gs = "K any" ∧ TParams.specList gs = "K cmp.Ordered, V any" := by
-  decide
 
 /-- finding region F_topSkipShadows (recorded in known_findings.json): a `new:"-"` top-level field
     hides a promoted field of the same name for Go, but the generator drops the skipped field before
